@@ -48,8 +48,9 @@ def run_variant(args):
         chk = Check(prop, "quick", ctx.repo, quiet=True)
         try:
             mod.run(ctx, chk)
-            from ..core.unconfirmed import withdraw_unconfirmed
+            from ..core.unconfirmed import withdraw_by_second_pass, withdraw_unconfirmed
             withdraw_unconfirmed(ctx, chk)
+            withdraw_by_second_pass(ctx, chk, mod, lambda: Ctx(repo.with_overlay(ov)))
         except AnalysisError as e:
             chk.error(e.rule, e.reason)
         listed, unlisted, stale = chk.classify()
